@@ -835,7 +835,8 @@ class Renderer:
       keep = 'replicate' in self.kinds and self.rep_mode == 'doc'
       if not keep:
         out = []
-        for c in expand_replicate(it, self.rep_mode, self.rep_euler_in.get(it['id'])):
+        eu = self.rep_euler_in.get(it['id'])
+        for c in expand_replicate(it, self.rep_mode if eu else 'doc', eu):
           out += self.make(c, Fa, depth)
         return out
       e = mat2euler(self.seq, q2mat(it['rquat']))
@@ -1011,6 +1012,11 @@ class _Part2:
         spec = {}
         for a in DEFAULTABLE[et]:
           if d(st.integers(0, 2)) == 0:
+            if et == 'joint' and a == 'type' and (self.kept_reps or self.child is not None or self.is_child):
+              # known finding 'attach-default-joint-type-heap-overflow': a class-level joint type together with
+              # any mjs_attach (replicate / attach) overflows a heap buffer in ComputeReference
+              self.stats.add('defaults:joint-type-excluded-with-attach(known-finding)')
+              continue
             spec[a] = pool[d(st.integers(0, len(pool) - 1))]
         if 'ORI' in spec:
           inh = [self.classes[c]['ori'].get(et) for c in chain(cl['parent']) if self.classes[c]['ori'].get(et)]
